@@ -603,3 +603,164 @@ func splNoNil(s *sentPacketList, k int) bool {
 //@   loop 1 step sent.state != atiter(sent.state) ==> (atiter(sent.state) == sentPacketSent && sent.state == sentPacketAcked)
 //@   loop 1 step c.cc.bytesInFlight == atiter(c.cc.bytesInFlight) - ite(sent.state != atiter(sent.state) && sent.inFlight, sent.size, 0)
 //@   noframe
+
+// ---------------------------------------------------------------------------
+// rangeset.go (property C24)
+
+// Executable specification of range sets (used by the bounded lemmas below and, through the
+// engine, by the contracts): well-formedness and membership.
+//
+//@ pure
+func rsWF(s rangeset[int64]) bool {
+	for i := range s {
+		if s[i].start >= s[i].end {
+			return false
+		}
+		if i > 0 && s[i-1].end >= s[i].start {
+			return false
+		}
+	}
+	return true
+}
+
+//@ pure
+func rsMember(s rangeset[int64], v int64) bool {
+	for i := range s {
+		if s[i].start <= v && v < s[i].end {
+			return true
+		}
+	}
+	return false
+}
+
+//@ func (*rangeset[int64]).removeranges(s, i, j)
+//@   requires s != nil && 0 <= i && i <= j && j <= len(*s)
+//@   ensures  len(*s) == old(len(*s)) - (j - i)
+//@   ensures  forall k int :: 0 <= k && k < i ==> (*s)[k] == old((*s)[k])
+//@   ensures  forall k int :: i <= k && k < len(*s) ==> (*s)[k] == old((*s)[k + (j - i)])
+//@   modifies *s, elems(*s)
+//@
+//@ func (*rangeset[int64]).insertrange(s, i, start, end)
+//@   allocates
+//@   requires s != nil && 0 <= i && i <= len(*s) && len(*s) < 1<<40
+//@   ensures  len(*s) == old(len(*s)) + 1 && (*s)[i].start == start && (*s)[i].end == end
+//@   ensures  forall k int :: 0 <= k && k < i ==> (*s)[k] == old((*s)[k])
+//@   ensures  forall k int :: i < k && k < len(*s) ==> (*s)[k] == old((*s)[k-1])
+//@   modifies *s, elems(*s)
+//@
+//@ func (rangeset[int64]).min(s) (r)
+//@   ensures len(s) > 0 ==> r == s[0].start
+//@   ensures len(s) == 0 ==> r == 0
+//@ func (rangeset[int64]).max(s) (r)
+//@   ensures len(s) > 0 ==> r == s[len(s)-1].end - 1
+//@   ensures len(s) == 0 ==> r == 0
+//@ func (rangeset[int64]).end(s) (r)
+//@   ensures len(s) > 0 ==> r == s[len(s)-1].end
+//@   ensures len(s) == 0 ==> r == 0
+//@ func (rangeset[int64]).isrange(s, start, end) (r)
+//@   ensures r <==> ((len(s) == 0 && start == 0 && end == 0) || (len(s) == 1 && s[0].start == start && s[0].end == end))
+//@
+//@ func (rangeset[int64]).contains(s, v) (r)
+//@   requires forall j int, k int :: 0 <= j && j < k && k < len(s) ==> s[j].end < s[k].start
+//@   requires forall k int :: 0 <= k && k < len(s) ==> s[k].start < s[k].end
+//@   ensures  r ==> (exists k int :: 0 <= k && k < len(s) && s[k].start <= v && v < s[k].end)
+//@   ensures  !r ==> (forall k int :: 0 <= k && k < len(s) ==> !(s[k].start <= v && v < s[k].end))
+//@   loop 1 invariant -1 <= rangeindex && rangeindex < len(s)
+//@   loop 1 invariant forall k int :: 0 <= k && k <= rangeindex ==> s[k].end <= v
+
+//@ func (rangeset[int64]).rangeContaining(s, v) (r)
+//@   requires forall j int, k int :: 0 <= j && j < k && k < len(s) ==> s[j].end < s[k].start
+//@   requires forall k int :: 0 <= k && k < len(s) ==> s[k].start < s[k].end
+//@   ensures  r.start != 0 || r.end != 0 ==> r.start <= v && v < r.end && (exists k int :: 0 <= k && k < len(s) && s[k].start == r.start && s[k].end == r.end)
+//@   ensures  r.start == 0 && r.end == 0 ==> (forall k int :: 0 <= k && k < len(s) ==> !(s[k].start <= v && v < s[k].end))
+//@   loop 1 invariant -1 <= rangeindex && rangeindex < len(s)
+//@   loop 1 invariant forall k int :: 0 <= k && k <= rangeindex ==> s[k].end <= v
+
+// Bounded lemmas (never counted as proof): for every range set of exactly N ranges (N = 0, 1 in the quick tier; 2 in the thorough tier;
+// N = 3 was tried by hand: sub discharged in 160 s, add did not finish in 180 s)
+// with arbitrary 64-bit endpoints, add and sub preserve well-formedness (sorted, non-empty,
+// disjoint, non-adjacent) and have exactly the set semantics for an arbitrary probe value v.
+
+//@ lemma
+//@ bounded 6
+//@ usebody insertrange, removeranges
+//@ requires start <= end
+//@ ensures wf0 ==> okWF
+//@ ensures wf0 ==> okMem
+func lemmaRangesetAdd0(start, end, v int64) (wf0, okWF, okMem bool) {
+	s := rangeset[int64]{}
+	wf0 = rsWF(s)
+	before := rsMember(s, v)
+	s.add(start, end)
+	return wf0, rsWF(s), rsMember(s, v) == (before || (start <= v && v < end))
+}
+
+//@ lemma
+//@ bounded 6
+//@ usebody insertrange, removeranges
+//@ requires start <= end
+//@ ensures wf0 ==> okWF
+//@ ensures wf0 ==> okMem
+func lemmaRangesetSub0(start, end, v int64) (wf0, okWF, okMem bool) {
+	s := rangeset[int64]{}
+	wf0 = rsWF(s)
+	before := rsMember(s, v)
+	s.sub(start, end)
+	return wf0, rsWF(s), rsMember(s, v) == (before && !(start <= v && v < end))
+}
+
+//@ lemma
+//@ bounded 6
+//@ usebody insertrange, removeranges
+//@ requires start <= end
+//@ ensures wf0 ==> okWF
+//@ ensures wf0 ==> okMem
+func lemmaRangesetAdd1(a0, b0, start, end, v int64) (wf0, okWF, okMem bool) {
+	s := rangeset[int64]{{a0, b0}}
+	wf0 = rsWF(s)
+	before := rsMember(s, v)
+	s.add(start, end)
+	return wf0, rsWF(s), rsMember(s, v) == (before || (start <= v && v < end))
+}
+
+//@ lemma
+//@ bounded 6
+//@ usebody insertrange, removeranges
+//@ requires start <= end
+//@ ensures wf0 ==> okWF
+//@ ensures wf0 ==> okMem
+func lemmaRangesetSub1(a0, b0, start, end, v int64) (wf0, okWF, okMem bool) {
+	s := rangeset[int64]{{a0, b0}}
+	wf0 = rsWF(s)
+	before := rsMember(s, v)
+	s.sub(start, end)
+	return wf0, rsWF(s), rsMember(s, v) == (before && !(start <= v && v < end))
+}
+
+//@ lemma
+//@ bounded 6
+//@ usebody insertrange, removeranges
+//@ requires start <= end
+//@ ensures wf0 ==> okWF
+//@ ensures wf0 ==> okMem
+func lemmaRangesetAdd2(a0, b0, a1, b1, start, end, v int64) (wf0, okWF, okMem bool) {
+	s := rangeset[int64]{{a0, b0}, {a1, b1}}
+	wf0 = rsWF(s)
+	before := rsMember(s, v)
+	s.add(start, end)
+	return wf0, rsWF(s), rsMember(s, v) == (before || (start <= v && v < end))
+}
+
+//@ lemma
+//@ bounded 6
+//@ usebody insertrange, removeranges
+//@ requires start <= end
+//@ ensures wf0 ==> okWF
+//@ ensures wf0 ==> okMem
+func lemmaRangesetSub2(a0, b0, a1, b1, start, end, v int64) (wf0, okWF, okMem bool) {
+	s := rangeset[int64]{{a0, b0}, {a1, b1}}
+	wf0 = rsWF(s)
+	before := rsMember(s, v)
+	s.sub(start, end)
+	return wf0, rsWF(s), rsMember(s, v) == (before && !(start <= v && v < end))
+}
